@@ -97,6 +97,7 @@ Verdict(c) ==
           THEN "TentsInRange"
      ELSE IF Len(font.fvs) > 0 /\ \E u \in Locs(c.lims) :
                ActiveSubN(fi, NormLoc(fx, ProjLoc(ulims, u))) # ActiveSub(font, u) THEN "FeatureVarsIdeal"
+     ELSE IF AllPinned(ulims) /\ fi.fvs # <<>> THEN "StaticIdeal"
      ELSE IF \E r \in res : ~r[3]
           THEN (IF FvDeviation(font.fvs, NormLimits(font, ulims)) THEN "FeatureVars:applied-record-without-remaining-conditions"
                 ELSE "FeatureVars")
